@@ -192,9 +192,11 @@ class Task:
 class GenResult:
     """Eagerly collected generator."""
 
-    def __init__(self, items):
+    def __init__(self, items, pending_exc=None, from_function=False):
         self.items = list(items)
         self.pos = 0
+        self.pending_exc = pending_exc      # the generator function raised this AFTER yielding the items
+        self.from_function = from_function  # a generator function (its body ran to the end already), not a genexp
 
 
 # ----------------------------------------------------------------------------- containers
